@@ -71,6 +71,26 @@ InsertRangeOK(s, es, t) ==
             \* B+ tree put a new entry, so a correct execution is explained by the first path (tried from the front, a range of n equal keys cost n! paths)
             LET p == Upper(s, es[1][1]) - d IN InsertRangeOK(InsertAt(s, p, es[1]), Tail(es), t)
 
+\* The same relation without search (MC_RangeEq.tla: TLC checks InsertRangeOK <=> InsertRangeFast on a bounded domain).  A range insertion leaves: the old
+\* entries in their old relative order, plus the accepted new entries (all of them in a multi container; otherwise the first one of every key that is not
+\* yet there) anywhere inside the runs of their keys -- i.e. t is sorted, has exactly these entries as a bag, and s is a subsequence of t.
+RECURSIVE AcceptedOf(_, _)
+AcceptedOf(s, es) ==
+    IF es = <<>> THEN <<>>
+    ELSE IF ~Multi /\ Count(s, es[1][1]) > 0 THEN AcceptedOf(s, Tail(es))
+    ELSE <<es[1]>> \o AcceptedOf(InsertAt(s, Upper(s, es[1][1]), es[1]), Tail(es))
+CountIn(q, x) == Cardinality({i \in 1 .. Len(q) : q[i] = x})
+RECURSIVE IsSubseq(_, _, _, _)
+IsSubseq(a, b, i, j) ==      \* a[i..] is a subsequence of b[j..] (greedy matching)
+    IF i > Len(a) THEN TRUE ELSE IF j > Len(b) THEN FALSE
+    ELSE IF a[i] = b[j] THEN IsSubseq(a, b, i + 1, j + 1) ELSE IsSubseq(a, b, i, j + 1)
+InsertRangeFast(s, es, t) ==
+    LET acc == AcceptedOf(s, es) IN
+    /\ Len(t) = Len(s) + Len(acc)
+    /\ Sorted(t)
+    /\ \A i \in 1 .. Len(t) : CountIn(t, t[i]) = CountIn(s, t[i]) + CountIn(acc, t[i])
+    /\ IsSubseq(s, t, 1, 1)
+
 \* bulk_load(sorted range) into an empty container: exactly the range
 BulkLoadOK(s, es, t) == s = <<>> /\ WellFormed(es) /\ t = es
 
